@@ -807,9 +807,16 @@ pub fn build_source(corpus: &Corpus, ch: &SrcChoice, opts: &SrcOpts) -> Built {
         .copied()
         .filter(|l| SYNTH_LANGS.contains(l))
         .collect();
-      let l = ls[lang.index(ls.len())];
-      labels.push("from_synth");
-      (l, render_synth(l, prog), "synth".to_string())
+      if ls.is_empty() {
+        // no synthesisable language allowed here: fall back to the first corpus file
+        let l = opts.langs[lang.index(opts.langs.len())];
+        let f = &corpus.lang(l).files[0];
+        (l, window(l, &f.text, opts.max_bytes, lang), f.name.clone())
+      } else {
+        let l = ls[lang.index(ls.len())];
+        labels.push("from_synth");
+        (l, render_synth(l, prog), "synth".to_string())
+      }
     }
   };
   for m in &ch.muts {
